@@ -35,7 +35,9 @@ def collect(ctx, n_corpus=(100, None), gen_modules=(("Gen_C02.tla", 10),), extra
     art.names = names
     art.meta = meta
     progs = list(extra_programs)
-    for mod, step in gen_modules:
+    for gm in gen_modules:
+        mod, step = gm[0], gm[1]
+        kind_of_module = gm[2] if len(gm) > 2 else None      # "insn": compiled as an instruction part (flags / attributes come back)
         ps, _ = tvcheck.generate(mod, ctx.seed, ctx.tier)
         if isinstance(ps, dict):
             ps = [p for p in ps["programs"] if not any(n.get("k") == "call" for n in _nodes(p["body"]))]
@@ -45,9 +47,12 @@ def collect(ctx, n_corpus=(100, None), gen_modules=(("Gen_C02.tla", 10),), extra
             ps = ps[::max(1, step // 4)]
         if isinstance(ps, dict):
             ps = ps["programs"]
+        if kind_of_module:
+            for q in ps:
+                q["kind"] = kind_of_module
         progs.extend(ps)
     # explicit predicate registers above P3 do not exist in the ISA (the attribute WRITE_P<n> is defined for n = 0..3)
-    progs = [p for p in progs if not (gen_kind == "insn" and p["id"].startswith("ex-") and re.match(r"^P(\d+)$", p["id"].split("-")[-1])
+    progs = [p for p in progs if not ((gen_kind == "insn" or p.get("kind") == "insn") and p["id"].startswith("ex-") and re.match(r"^P(\d+)$", p["id"].split("-")[-1])
                                       and int(p["id"].split("-")[-1][1:]) > 3)]
     if keep:
         progs = [p for p in progs if keep(p)]
